@@ -17,8 +17,10 @@ if "<!-- STATUS:BEGIN -->" in s:
     s = re.sub(r"<!-- STATUS:BEGIN -->.*<!-- STATUS:END -->", block, s, flags=re.S)
 else:
     s = s.replace("## Appendix A — the acceptance and defect relations", "### 11.7 What one quick run covers (from the committed evidence files)\n\n" + block +
-                  "\n\nThe thorough tier was run once for every property on the unchanged tree (all exit 0): C01 93 s, C02 132 s, C03 29 min (whole 1.15e10 concrete product), "
-                  "C04 48 s, C05 15 min, C06 17 min, C07 9 min (2.8e6 strings of the 2-edit neighbourhood), C08 3 min, C13 2 min, C17 2 min, C18 6 s, C20 8 s; the remaining ones are listed in the evidence of the last thorough run.\n\n"
+                  "\n\nThe thorough tier was run for all 20 properties on the unchanged tree after round 9 of 11.6 (one background run, all exit 0; wall times "
+                  "while other work shared the machine): C01 42 s, C02 59 s, C03 31 min (the whole 1.15e10 concrete product), C04 13 s, C05 14 min, C06 16 min, "
+                  "C07 11 min (2.8e6 strings of the 2-edit neighbourhood), C08 4 min, C09 24 min, C10 18 min, C11 15 min, C12 16 min, C13 1 min, C14 22 min, "
+                  "C15 10 min, C16 16 min, C17 1 min, C18 2 s, C19 3 min, C20 5 s; the checks changed afterwards were run again at the end (all exit 0).\n\n"
                   "## Appendix A — the acceptance and defect relations", 1)
 open("/verif/DESIGN.md", "w").write(s)
 print("ok")
